@@ -154,8 +154,15 @@ func possNames(rels []dependency.Relation) []string {
 }
 
 // HangGuard is how long one load / read / close step of the library may take before it is declared not to
-// terminate (normal steps take micro- to milliseconds).
+// terminate. Normal steps take micro- to milliseconds; the bound is minutes so that a loaded machine (16 workers,
+// decoders allocating large dictionaries, other checks running) cannot trip it — a real hang is still found, later.
+// It is the ONLY wall-clock dependent verdict; nothing timing-dependent is ever compared between two loads.
 var HangGuard = 180 * time.Second
+
+// BigMem limits how many executions that make a decoder allocate a large (>= 16 MiB) dictionary or window run at the
+// same time (there is no memory limit in the sandbox; 16 workers x 64 MiB x several members adds up and slows
+// everything else down).
+var BigMem = make(chan struct{}, 2)
 
 // Aborted is set once a step did not return: the leaked goroutine may hold library-internal locks, so every later
 // execution of this process is skipped (scenarios report exhaustive:false) and the run ends with the violations found.
